@@ -6,6 +6,6 @@ CONSTANTS
   Classes = {"GoodKA", "BadLine", "BadHeader", "BadCL", "TlsHello", "TlsCut", "Truncate"}
   Racing = FALSE
   Linger = TRUE
-  DefectSets = {{}, {"stalebuf"}}
+  DefectSets = {{}}
 INVARIANT TypeOK
 CHECK_DEADLOCK FALSE
